@@ -194,11 +194,29 @@ def run(prog, rep, tier):
             adv in (("binop", "+", mu, size), ("binop", "+", size, mu)) and bnd[2][3] == NONE_ and rem[2][3] == NONE_
         why = "bounded=%s remainder=%s cursor'=%s init=%s" % (fmt(bnd)[:70], fmt(rem)[:50], fmt(nx)[:80], fmt(inner["init"][nm]))
         if okc:
-            n_rows = ("ext", "len", (env_elem,), ())
-            want = [("ext", "round", (("binop", "*", n_rows, ratio),), ()), ("ext", "round", (("binop", "*", ratio, n_rows),), ())]
-            alt_n = ("ext", "len", (("method", env_elem, "copy", (), ()),), ())
-            want += [("ext", "round", (("binop", "*", alt_n, ratio),), ()), ("ext", "round", (("binop", "*", ratio, alt_n),), ())]
-            rep.check("SIZE.round", size in want, fwhere(f, ap.node), "fold size = round(len(sample) * ratio_i)", "fold size is %s" % fmt(size)[:80])
+            def same_rows(t):
+                # the environment's sample or a length-preserving copy / conversion / shuffle of it
+                while True:
+                    if t == env_elem:
+                        return True
+                    if t[0] == "method" and t[2] in ("copy",) and not t[3]:
+                        t = t[1]
+                    elif t[0] == "ext" and t[1] in ("numpy.array", "numpy.asarray", "numpy.copy", "copy.deepcopy", "numpy.asanyarray", "copy.copy") and len(t[2]) == 1:
+                        t = t[2][0]
+                    elif t[0] == "shuffled":
+                        t = t[1]
+                    else:
+                        return False
+
+            def is_rows(t):
+                if t[0] == "ext" and t[1] == "len" and len(t[2]) == 1:
+                    return same_rows(t[2][0])
+                if t[0] == "sub" and t[1][0] == "attr" and t[1][2] == "shape" and is_const(t[2], 0):
+                    return same_rows(t[1][1])
+                return False
+            prod = size[2][0] if size[0] == "ext" and size[1] == "round" and len(size[2]) == 1 and not size[3] else None
+            size_ok = prod is not None and prod[0] == "binop" and prod[1] == "*" and ((prod[2] == ratio and is_rows(prod[3])) or (prod[3] == ratio and is_rows(prod[2])))
+            rep.check("SIZE.round", size_ok, fwhere(f, ap.node), "fold size = round(len(sample) * ratio_i)", "fold size is %s" % fmt(size)[:80])
             # source of the slices
             base = Sarr
             shuffled = base[0] == "shuffled" and base[1] in (("method", env_elem, "copy", (), ()), ("ext", "numpy.copy", (env_elem,), ()), ("ext", "numpy.array", (env_elem,), ()),
